@@ -959,6 +959,17 @@ impl World {
         buf.clear();
         self.mon.before_deliver(ei, &d, &self.eps[ei]);
         let ev = self.eps[ei].ep.handle(now, d.src, None, d.ecn, BytesMut::from(&d.data[..]), &mut buf);
+        if std::env::var("QV_TRACE_RX").is_ok() {
+            if let Some(tr) = &mut self.trace {
+                let kind = match &ev {
+                    None => "ignored".to_string(),
+                    Some(DatagramEvent::ConnectionEvent(ch, _)) => format!("conn {}", ch.0),
+                    Some(DatagramEvent::NewConnection(_)) => "incoming".into(),
+                    Some(DatagramEvent::Response(_)) => "response".into(),
+                };
+                tr.push(format!("{} rx {ei} from {} size={} first={:02x} -> {kind}", self.now, d.src, d.data.len(), d.data[0]));
+            }
+        }
         match ev {
             None => {
                 self.mon.after_deliver(ei, &d, None, &self.eps[ei], &mut self.led);
